@@ -961,6 +961,13 @@ def substituted_constant(v):
             inner = substituted_constant(arm) if isinstance(arm, Sym) and (arm.op in ('min', 'max') or (arm.op == 'call' and arm.args and arm.args[0] in ('min', 'max'))) else None
             if inner is not None and any(isinstance(x, SelfV) and x.path and x.path[0].lstrip('_') == inner[0] for x in v.args):
                 return inner
+    if v.op == 'boolor' and len(v.args) == 2:
+        # ``self.attr or CONSTANT``: None (and every other false value - 0, the epoch) is replaced by the constant
+        own, other = v.args
+        if isinstance(own, SelfV) and len(own.path) == 1 and isinstance(own.path[0], str) and not compose_root(other) and \
+                (is_const_value(other) or isinstance(other, ObjV) or isinstance(other, Sym)):
+            return own.path[0].lstrip('_'), other
+        return None
     if v.op == 'ifexp' and len(v.args) == 3:
         arms, cond = v.args[1:], v.args[0]
     elif v.op == 'phi' and len(v.args) == 2:
